@@ -116,6 +116,17 @@ func dumpVal2(sb *strings.Builder, v reflect.Value, unwrap bool) {
 				continue
 			}
 			sb.WriteString(f.Name + ":")
+			if f.Name == "Else" && !v.Field(i).IsNil() {
+				// else { if c { } } is else if c { }: macro expansion unwraps the one-statement block and the printer
+				// can write the if statement after else without braces (any other statement gets its braces back)
+				if b, ok := v.Field(i).Interface().(*ast.BlockStmt); ok && b != nil && len(b.List) == 1 {
+					if inner, ok := b.List[0].(*ast.IfStmt); ok {
+						dumpVal2(sb, reflect.ValueOf(inner), true)
+						sb.WriteString(" ")
+						continue
+					}
+				}
+			}
 			dumpVal2(sb, v.Field(i), f.Name != "Else")
 			sb.WriteString(" ")
 		}
@@ -173,6 +184,12 @@ func norm(n ast.Node) string {
 	switch n.(type) {
 	case ast.Decl:
 		ds, _, err := parseDecls("package p\n" + txt + "\n")
+		if err != nil && hasHeaderLiteral(n) {
+			// go/printer does not write the parentheses a composite literal needs in an if/for/switch/range header when
+			// the tree has no ParenExpr (macro expansion removed them): no text normalisation for such a declaration,
+			// the dump of the tree itself is compared
+			return dump(n)
+		}
 		if err != nil || len(ds) != 1 {
 			return "UNPARSEABLE:" + txt
 		}
@@ -189,6 +206,46 @@ func norm(n ast.Node) string {
 		return dump(body[0])
 	}
 	return "OTHER:" + txt
+}
+
+// hasHeaderLiteral: n contains a composite literal of a named type in the header of an if/for/switch/range statement
+func hasHeaderLiteral(n ast.Node) bool {
+	found := false
+	lit := func(x ast.Node) {
+		if x == nil || reflect.ValueOf(x).IsNil() {
+			return
+		}
+		ast.Inspect(x, func(y ast.Node) bool {
+			if c, ok := y.(*ast.CompositeLit); ok {
+				switch c.Type.(type) {
+				case *ast.Ident, *ast.SelectorExpr:
+					found = true
+				}
+			}
+			return !found
+		})
+	}
+	ast.Inspect(n, func(x ast.Node) bool {
+		switch s := x.(type) {
+		case *ast.IfStmt:
+			lit(s.Init)
+			lit(s.Cond)
+		case *ast.ForStmt:
+			lit(s.Init)
+			lit(s.Cond)
+			lit(s.Post)
+		case *ast.SwitchStmt:
+			lit(s.Init)
+			lit(s.Tag)
+		case *ast.TypeSwitchStmt:
+			lit(s.Init)
+			lit(s.Assign)
+		case *ast.RangeStmt:
+			lit(s.X)
+		}
+		return !found
+	})
+	return found
 }
 
 // ---------------------------------------------------------------- encoding of the parsed (and macro-expanded) forms for the model
